@@ -258,6 +258,7 @@ PROPS["C07"] = {
         {"name": "c07_takeover_3nodes", "fn": "c07_election", "params": {"quick": {"secondaries": 2, "triggers": 1, "deviations": 1, "budget": 400, "prim": 1}, "thorough": {"secondaries": 2, "triggers": 1, "deviations": 2, "budget": 400, "prim": 1}}},
         {"name": "c07_election_3nodes", "fn": "c07_election", "params": {"quick": {"secondaries": 2, "triggers": 1, "deviations": 0, "budget": 400}, "thorough": {"secondaries": 2, "triggers": 1, "deviations": 1, "budget": 400}}, "budget_s": {"quick": 900, "thorough": 7200}},
         {"name": "c07_rival_claim_2nodes", "fn": "c07_election", "params": {"quick": {"secondaries": 1, "triggers": 1, "deviations": 2, "budget": 600, "war": 1, "early": 2}, "thorough": {"secondaries": 1, "triggers": 1, "deviations": 3, "budget": 600, "war": 1, "early": 3}}, "covers": ["early-wake-up"]},
+        {"name": "c07_rival_claim_3nodes", "fn": "c07_election", "params": {"quick": {"secondaries": 2, "triggers": 1, "deviations": 1, "budget": 400, "war": 1, "early": 1}, "thorough": {"secondaries": 2, "triggers": 1, "deviations": 2, "budget": 400, "war": 1, "early": 2}}, "covers": ["early-wake-up"]},
         {"name": "c07_election_2nodes_early_polls", "fn": "c07_election", "params": {"quick": {"secondaries": 1, "triggers": 1, "deviations": 1, "budget": 600, "early": 1}, "thorough": {"secondaries": 1, "triggers": 1, "deviations": 2, "budget": 600, "early": 2}}, "covers": ["early-wake-up"], "budget_s": {"quick": 900, "thorough": 7200}},
         {"name": "c07_election_2nodes_simultaneous", "fn": "c07_election", "params": {"quick": {"secondaries": 1, "triggers": 2, "deviations": 1, "budget": 600}, "thorough": {"secondaries": 1, "triggers": 2, "deviations": 1, "budget": 600}}, "budget_s": {"quick": 900, "thorough": 7200}},
     ],
